@@ -1,0 +1,46 @@
+/*
+ * Verification hooks (model checking of the runtime under a controlled
+ * scheduler). Everything in this file is inert unless the library is
+ * compiled with -DPARSEC_VERIF_HOOKS; even then the library never defines
+ * parsec_verif_cb: a verification harness does, and without one the hooked
+ * library behaves exactly like the regular one.
+ */
+#ifndef PARSEC_VERIF_HOOKS_H_HAS_BEEN_INCLUDED
+#define PARSEC_VERIF_HOOKS_H_HAS_BEEN_INCLUDED
+
+#if defined(PARSEC_VERIF_HOOKS)
+
+#include <stddef.h>
+#include <stdint.h>
+
+#define PARSEC_VERIF_EV_WAIT 1   /* the calling thread waits for another thread */
+
+typedef void (*parsec_verif_cb_t)(int event, const volatile void *addr);
+extern parsec_verif_cb_t parsec_verif_cb __attribute__((weak));
+
+/* Placed in front of a spin-wait loop: tell the controlled scheduler that this
+ * thread cannot progress until (cond) becomes true. The original loop that
+ * follows then exits on its first iteration. */
+#define PARSEC_VERIF_WAIT_UNTIL(cond)                                    \
+    do {                                                                 \
+        if( (NULL != &parsec_verif_cb) && (NULL != parsec_verif_cb) ) {  \
+            while( !(cond) )                                             \
+                parsec_verif_cb(PARSEC_VERIF_EV_WAIT, NULL);             \
+        }                                                                \
+    } while(0)
+#define PARSEC_VERIF_LOCK_WAIT(lockp)                                    \
+    do {                                                                 \
+        if( (NULL != &parsec_verif_cb) && (NULL != parsec_verif_cb) ) {  \
+            while( 0 != *(volatile int32_t*)(lockp) )                    \
+                parsec_verif_cb(PARSEC_VERIF_EV_WAIT, (lockp));          \
+        }                                                                \
+    } while(0)
+
+#else  /* defined(PARSEC_VERIF_HOOKS) */
+
+#define PARSEC_VERIF_WAIT_UNTIL(cond)  do {} while(0)
+#define PARSEC_VERIF_LOCK_WAIT(lockp)  do {} while(0)
+
+#endif /* defined(PARSEC_VERIF_HOOKS) */
+
+#endif /* PARSEC_VERIF_HOOKS_H_HAS_BEEN_INCLUDED */
